@@ -70,6 +70,25 @@ STRENGTHENED = {
             "server on the old or on the new file, never a mixture",
     "C20g": "the cycle shapes also without any IMPLICIT statement",
     "C20h": "hosts with two dummy procedures declared with the host / with each other",
+    "C01i": "the driver answers requests the server sends to the client, after 0-2 further messages of its own; "
+            "full client capabilities and processId in initialize",
+    "C02j": "closed documents rewritten with other contents of the same size (with the coarse/frozen file-system clock)",
+    "C03i": "tokens beyond built-in size limits (labels, literals, kinds, lengths of > 4300 digits; 70 kB strings)",
+    "C03j": "half surrogate pairs in texts delivered by didChange (frames fall back to \\uXXXX escapes)",
+    "C10j": "types in INCLUDE fragments that the includer extends, edit_fragment operator, battery always asks "
+            "every member access (quick tier sees it at about 1200 cases: thorough tier)",
+    "C15i": "vendored modules named like bundled intrinsic ones in the template workspaces",
+    "C15j": "headers for preprocessed template files placed next to another preprocessed source (not caught at "
+            "the quick tier's case count; see the evaluation)",
+    "C16i": "readiness/time seam: select() on the simulated stdin and sleep() answered from the client model and "
+            "a virtual clock; bursts followed by a waiting client; idle-wait reported as a lost message",
+    "C16j": "pairs of files whose names differ by what an over-eager URI conversion erases, one of them "
+            "disappearing while open",
+    "C17i": "sources beyond 'big file' thresholds (6000 lines) in the enumerated configuration cases",
+    "C17j": "valid-but-unusual values for every option (extreme numbers, paths, switches), one per configuration file",
+    "C18i": "literal path entries respelt ('./', trailing separator, 'a/../a/b', 'a/./b')",
+    "C18j": "file names that are not in NFC",
+    "C20j": "shape 'func_result': functions whose result is declared with themselves / a ring of them",
 }
 STRENGTHENED.update(json.load(open(os.path.join(VERIF, "seeded", "strengthened.json")))
                     if os.path.exists(os.path.join(VERIF, "seeded", "strengthened.json")) else {})
